@@ -20,7 +20,8 @@ LEVEL_TEXT = ('Each call of move_agent/turn_agent (alone, inside random chains, 
               'hooks are installed) is compared with an independent reference (heading tables, target inside grid and not '
               'blocking); every other transition function must leave the pose alone (teleport only from a telepod). The '
               'product position x heading x action x kind-of-target-cell is enumerated completely on 3x3 and 2x4 grids '
-              'each run; histories of all shipped configs assert "agent inside the grid, never on a blocking cell".')
+              'each run; histories of all shipped configs assert "agent inside the grid, never on a blocking cell".'
+              ' Also: fields of 3-6 same-coloured telepods (a teleport ends on a telepod of the same colour), nested and variously filled boxes among the exhaustive front-cell kinds.')
 LEVEL_NOTE = ('Trusted: refmodel.py tables; the blocking flag is read from the object itself (the statement is relative to '
               'it). Larger grids and histories are sampled, not enumerated.')
 SHARDS = {'quick': 4, 'thorough': 16}
